@@ -515,8 +515,9 @@ class RealizeMemrefCasts(RewritePattern):
         # input or output, list to visit all uses of allocated memrefs:
         uses = [x.operation for x in op.dest.uses]
 
-        # insert "copy to" for first use as input
-        # walk parent op in order to find first use as input
+        # insert "copy to" if the first use reads the buffer
+        # walk parent op in order to find the first use; a first use that only
+        # writes makes the new buffer current, so later readers need no copy
         assert op.parent
         for use_op in op.parent.walk():
             if use_op not in uses:
@@ -524,17 +525,28 @@ class RealizeMemrefCasts(RewritePattern):
             # check if input
             is_input = False
             if isinstance(use_op, linalg.GenericOp):
-                # don't know if input or output, default to yes
-                is_input = op.results[0] in use_op.inputs
+                # an output whose block argument is read by the body (accumulation)
+                # needs the current data as well
+                is_input = op.results[0] in use_op.inputs or any(
+                    bool(arg.uses)
+                    for out, arg in zip(use_op.outputs, use_op.body.block.args[len(use_op.inputs) :])
+                    if out == op.results[0]
+                )
             elif isinstance(use_op, dart.StreamingRegionOpBase):
                 is_input = op.results[0] in use_op.inputs
             else:
+                is_input = True
+            if not is_input and use_op.parent_block() is not op.parent:
+                # a write nested in a region (scf.if, scf.for) may not execute: copy in
+                # before the enclosing op, such that later readers see the source otherwise
+                while use_op.parent_block() is not op.parent:
+                    assert (use_op := use_op.parent_op()) is not None
                 is_input = True
             if is_input:
                 # insert copy op
                 copy_op = memref.CopyOp(source_op.source, op.dest)
                 rewriter.insert_op(copy_op, InsertPoint.before(use_op))
-                break
+            break
 
         # insert "copy from" for last use as output
         # walk parent op in reverse order to find last use as output
